@@ -22,13 +22,16 @@ def run(ck):
         "folding) and added to the result (Z/O + O = O); the early-stop flag is shared by both calls and tested only after both; terminal returns are +/- the mate "
         "score decided by `turn == perspective` (O) or the constant 0 (Z). Hence evaluate(s, White) = -evaluate(s, Black) for every position. Mirror clause T1: "
         "the piece-square table index of a white piece on s equals that of a black piece on the rank-mirrored square for all 64 squares (folded). "
-        "NOT decided: mirror symmetry of the other heuristic terms.")
+        "M1: the term functions are colour-parametric: apart from the piece-square orientation decided by T1 they mention no colour constant, do not branch on "
+        "which colour `perspective` is, and use no colour-direction helper (forward/backward); they are all registered with perspective-independent weights. "
+        "NOT decided: mirror symmetry of the numeric content of the terms (table values, distances).")
     ck.trusted = ["rustc front end and MIR construction", "extractor decoding", "the term functions read `perspective` only to select the side (their mirror symmetry is not decided)"]
     ck.not_decided = ["mirror symmetry (flip ranks, swap colours) of the heuristic terms other than the piece-square index mapping"]
     ck.run_rule(a1_loop_structure)
     ck.run_rule(a2_operator_parity)
     ck.run_rule(a3_terminal_parity)
     ck.run_rule(t1_piece_square_mirror)
+    ck.run_rule(m1_terms_colour_parametric)
 
 
 def a1_loop_structure(ck):
@@ -259,3 +262,65 @@ def t1_piece_square_mirror(ck):
     # both lookups of a path use the same index (middle-game and end-game tables)
     for col, ts in idx_by_colour.items():
         ck.req(len(set(ts)) == 1, "T1.same_index", col, b.where(), "the two table lookups of the %s path use different indices" % col)
+
+
+def m1_terms_colour_parametric(ck):
+    """Mirror clause, necessary condition: a term f(position, colour) can only satisfy f(p, White) = f(mirror(p), Black) for all p if it
+    treats the two colours alike - it may select pieces and counts by `perspective` / `!perspective`, but a colour constant, a branch on the
+    colour's discriminant or a direction helper gives one colour a treatment the other does not get (unless paired with a rank flip, which
+    only the piece-square lookup does and T1 decides)."""
+    prog = ck.prog
+    table = ck.const(EV + "EVALUATORS", "M1")
+    terms = []
+    for row in table:
+        fnv = [x for x in row if isinstance(x, dict) and "$fn" in x]
+        if fnv:
+            terms.append((row[0], fnv[0]["$fn"]))
+    ck.floor("M1", len(terms), 4, "term functions registered in EVALUATORS")
+    cadt = ck.adt("weechess_core::color::Color", "M1")
+    colour_names = {v["name"] for v in cadt["variants"]}
+    from callgraph import CallGraph
+    cg = CallGraph(prog)
+    ORIENTED = EV + "evaluate_piece_squares::evaluate_piece_square"   # the one place where colour selects an orientation (T1)
+    for w, fn in terms:
+        b = ck.body(fn, "M1")
+        seen, _ext, _ind = cg.reachable([fn])
+        scope = [n for n in seen if n.startswith(EV) and n != ORIENTED and not n.startswith(ORIENTED + "::")]
+        bad = []
+        for n in sorted(scope):
+            body = prog.body(n)
+            tb = TermBuilder(prog, body)
+            for bb, blk in enumerate(body.blocks):
+                if blk.get("cleanup"):
+                    continue
+                for s_ in blk["stmts"]:
+                    if s_["k"] != "assign":
+                        continue
+                    v = tb.rvalue(s_["rv"])
+                    for x in walk(v):
+                        if x[0] in ("const", "agg") and variant_name(x) in colour_names and ("Color" in str(x[1]) or x[0] == "const"):
+                            ty = None
+                            if x[0] == "const":
+                                from terms import thaw
+                                raw = thaw(x[2])
+                                while isinstance(raw, dict) and "$ref" in raw and len(raw) == 1:
+                                    raw = raw["$ref"]
+                                ty = raw.get("$ty") if isinstance(raw, dict) else None
+                            if x[0] == "agg" or (ty or "").endswith("color::Color"):
+                                bad.append((n, s_.get("line"), "colour constant %s" % variant_name(x)))
+                t = blk["term"]
+                if t["k"] == "switch":
+                    c = tb.operand(t["discr"])
+                    if c[0] == "discr" and c[1][0] == "param" and body.local_ty(c[1][1]).endswith("color::Color"):
+                        bad.append((n, t.get("line"), "branch on which colour `perspective` is"))
+                    if c[0] == "call" and c[1].endswith("Color as core::cmp::PartialEq>::eq"):
+                        bad.append((n, t.get("line"), "comparison of a colour with another"))
+                if t["k"] == "call":
+                    cn = callee_name(t)
+                    if cn.split("::")[-1] in ("forward", "backward") and "color::Color" in cn:
+                        bad.append((n, t.get("line"), "colour-direction helper %s" % cn.split("::")[-1]))
+        ck.req(not bad, "M1.colour_parametric", fn.split("::")[-2], b.where(bad[0][1] if bad else None),
+               "the term treats the colours differently (%s in %s): a position and its colour-swapped rank mirror are scored differently" % (bad[0][2] if bad else "", bad[0][0].split("::")[-1] if bad else ""),
+               "%d function(s) in scope, no colour constant / branch / direction helper" % len(scope))
+        ck.req(isinstance(w, (int, float)), "M1.weight", fn.split("::")[-2], b.where(), "the term's weight is not a plain number")
+    ck.sample({"rule": "M1", "terms": [t[1].split("::")[-2] for t in terms]})
